@@ -446,28 +446,11 @@ func c03Truth(hi *history, gitLog string) ([]c03Expect, map[string]string) {
 	return out, origin
 }
 
-const c03KnownCopy = "C03-copy-entry-consumes-source-record"
-
 func c03CheckE2E(c *c03E2E, rep *runReport) {
 	id := fmt.Sprintf("e2e-%d", c.ID)
-	// known-finding class C03-copy-entry-consumes-source-record: the repository has git's copy detection switched on, git's log
-	// contains a `C src dst` entry, and the failing rule lives in the source or the destination file of such an entry
-	// (or in a file descending from one)
-	copyPaths := map[string]bool{}
-	if c.History.CopyConfig {
-		for _, l := range strings.Split(c.GitLog, "\n") {
-			p := strings.Split(l, "\t")
-			if len(p) == 3 && strings.HasPrefix(p[0], "C") {
-				copyPaths[gitUnquote(p[1])] = true
-				copyPaths[gitUnquote(p[2])] = true
-			}
-		}
-	}
+	// no known-finding class is left (C03-copy-entry-consumes-source-record was fixed by e81cbba): every deviation from the
+	// history's truth is a violation
 	failAt := func(path, what string) {
-		if copyPaths[path] || copyPaths[c.History.Origin[path]] {
-			rep.failKnown(id, what, c, c03KnownCopy)
-			return
-		}
 		rep.fail(id, what, c)
 	}
 	if c.Result.Exit != 0 && c.Result.Exit != 1 || !c.Result.JSONOK {
